@@ -162,6 +162,10 @@ impl SignatureContext<'_> {
 
         let amz_date = AmzDate::parse(info.x_amz_date).map_err(|_| invalid_request!("invalid field: x-amz-date"))?;
 
+        if credential.date != amz_date.fmt_date().as_str() {
+            return Err(invalid_request!("invalid field: x-amz-credential: scope date does not match x-amz-date"));
+        }
+
         let access_key = credential.access_key_id.to_owned();
         let secret_key = auth.get_secret_key(&access_key).await?;
 
@@ -238,6 +242,13 @@ impl SignatureContext<'_> {
         let region = presigned_url.credential.aws_region;
         let service = presigned_url.credential.aws_service;
 
+        if presigned_url.credential.date != presigned_url.amz_date.fmt_date().as_str() {
+            return Err(s3_error!(
+                AuthorizationQueryParametersError,
+                "the date in the credential scope does not match the date of X-Amz-Date"
+            ));
+        }
+
         let signature = {
             let headers = self.hs.find_multiple_with_on_missing(&presigned_url.signed_headers, |name| {
                 // HTTP/2 replaces `host` header with `:authority`
@@ -303,6 +314,13 @@ impl SignatureContext<'_> {
         let secret_key = auth.get_secret_key(access_key).await?;
 
         let amz_date = extract_amz_date(&self.hs)?.ok_or_else(|| invalid_request!("missing header: x-amz-date"))?;
+
+        if authorization.credential.date != amz_date.fmt_date().as_str() {
+            return Err(s3_error!(
+                AuthorizationHeaderMalformed,
+                "the date in the credential scope does not match the date of x-amz-date"
+            ));
+        }
 
         let is_stream = matches!(amz_content_sha256, Some(AmzContentSha256::MultipleChunks));
 
